@@ -448,7 +448,8 @@ class Inputs:
     def validate_week(year: int, week: int) -> bool:
         """Validate week."""
 
-        max_week = datetime.strptime(f"{12}-{31}-{year}", "%m-%d-%Y").isocalendar()[1]
+        # The Gregorian calendar repeats every 400 years; map the year into the range `datetime` supports.
+        max_week = datetime(((year - 1) % 400) + 2001, 12, 31).isocalendar()[1]
         if max_week == 1:
             max_week = 53
         return 1 <= week <= max_week
